@@ -46,6 +46,10 @@ def run(ctx):
     # nonces k for which C1 = [k]G has a short x or y coordinate (the same small scalars TLC found): fixed-width fields
     for d, xl, yl in special[:6]:
         cases.append({"kind": "enc", "d": keys[3], "mf": 0, "mlen": 20, "ks": [hex(d)[2:]], "note": "C1 with x of %d and y of %d bytes" % (xl, yl)})
+    # sparse scalars (long runs of zero digits in any recoding): as the private key in [d]C1 and as the nonce in [k]P
+    for sp in (hex((1 << 200) + 1)[2:], hex((1 << 255) - (1 << 130))[2:], hex(3 << 140)[2:]):
+        cases.append({"kind": "enc", "d": sp, "mf": 0, "mlen": 19, "ks": [hex(rnd.randrange(1, N))[2:]], "note": "sparse private key"})
+        cases.append({"kind": "enc", "d": keys[3], "mf": 0, "mlen": 19, "ks": [sp], "note": "sparse nonce"})
     # a nonce whose first KDF byte is zero: a 1-byte plaintext must be encrypted under the NEXT nonce
     zk = None
     frows = tlc_table(ctx, [{"kind": "findk", "d": STD_D, "k": k} for k in range(2, 1400)], "findk")
@@ -55,12 +59,25 @@ def run(ctx):
             break
     if zk is None:
         raise Infra("no nonce with a zero KDF byte among 1400 candidates")
-    cases.append({"kind": "enc", "d": STD_D, "mf": 0, "mlen": 1, "ks": [hex(zk)[2:], hex(zk + 1)[2:]], "retry": True})
+    zkcase = {"kind": "enc", "d": STD_D, "mf": 0, "mlen": 1, "ks": [hex(zk)[2:], hex(zk + 1)[2:]], "retry": True}
+    cases.append(zkcase)
+    # short plaintexts under many nonces in the real code: whenever more than one nonce is drawn (the standard redraws only when
+    # the whole key stream is zero: one nonce in 2^16 for two bytes), the call fails or the own ciphertext does not decrypt,
+    # the (nonce, length) becomes a case for the specification
+    tf, sf = os.path.join(ctx.work, "sweep.json"), os.path.join(ctx.work, "sweep.out.json")
+    with open(tf, "w") as f:
+        json.dump({"d": keys[3], "mlens": [2, 3, 32]}, f)
+    ctx.harness(["c02-sweep", tf, str(4000 if thorough else 1000), sf])
+    sw = json.load(open(sf))
+    for x in sw["odd"]:
+        cases.append({"kind": "enc", "d": keys[3], "mf": 0, "mlen": x["mlen"], "ks": [hex(x["k"])[2:], hex(x["k"] + 1)[2:], hex(x["k"] + 2)[2:]], "note": "nonce sweep: " + x["why"][:60]})
+    ctx.log("nonce sweep: %d encryptions of 2 / 3 / 32 bytes, %d handed to the specification" % (sw["encryptions"], len(sw["odd"])))
+    ctx.cov["nonce_sweep_encryptions"] = sw["encryptions"]
     rows = tlc_table(ctx, cases, "enc")
     std = rows_by(rows, cases[0])["expect"]
     if bytes(std["c3"]).hex() != "59983c18f809e262923c53aec295d30383b54e39d609d160afcb1908d0bd8766" or bytes(std["c2"]).hex() != "21886ca989ca9c7d58087307ca93092d651efa":
         raise Infra("SM2.tla does not reproduce the GM/T 0003.5 Appendix A encryption example (C3 %s C2 %s)" % (bytes(std["c3"]).hex(), bytes(std["c2"]).hex()))
-    if rows_by(rows, cases[-1])["expect"]["draws"] != 2:
+    if rows_by(rows, zkcase)["expect"]["draws"] != 2:
         raise Infra("zero-KDF nonce did not cause a retry in the specification")
     ctx.log("TLC encrypted %d cases (the standard's example reproduced; zero-KDF nonce k=%d forces a second draw)" % (len(rows), zk))
     # rejection cases
